@@ -131,3 +131,251 @@ Print Assumptions C01_burn_remaining_zeroes.
 Print Assumptions C01_counter_never_increases.
 Print Assumptions C01_zero_is_forever.
 Print Assumptions C01_random_pick_in_window.
+
+
+(* =====================================================================================
+   Part 2: the three open-edition minters (one model, two variant flags:
+   open-edition-minter = mkOV false false, -wl-flex = mkOV true false, -merkle-wl =
+   mkOV false true) and the base minter.  "Token ids are issued as 1,2,3,... with no gap
+   or repeat, the total-mint count equals the number of mints that succeeded, the supply
+   never exceeds the configured token cap (or the factory-wide cap captured at creation
+   where the variant applies one), and nothing can be minted after a successful
+   burn-remaining."  All statements are for every variant, every factory-parameter and
+   whitelist answer, every sender, clock and attached funds.  Statements only.
+   ===================================================================================== *)
+From LP Require Import MinterOpen MinterOpenProofs.
+
+(* The supply invariant of an open-edition minter whose cap is `cap` (None = no cap stored):
+   - the total-mint count equals the token index,
+   - the ids handed to the collection are exactly index, ..., 2, 1 (newest first),
+   - when a cap is stored: remaining + minted + given up by burn-remaining = cap. *)
+Theorem C01_oe_invariant_spelled_out : forall cap s,
+  InvO cap s <->
+  (o_total s = o_token_index s /\
+   o_minted s = rev (map N.of_nat (seq 1 (N.to_nat (o_token_index s)))) /\
+   match cap with
+   | Some c => exists m, o_mintable s = Some m /\ m + o_token_index s + o_burned s = c
+   | None => o_mintable s = None
+   end).
+Proof. exact InvO_spelled. Qed.
+
+(* it holds for the state `instantiate` stores; the cap is num_tokens when given, else the
+   factory's max_token_limit as it is at creation on the plain and merkle variants, else
+   none at all on the wl-flex variant (which stores no count) *)
+Theorem C01_oe_holds_at_creation :
+  forall vr admin payment num_tokens pal wl start end_ price dn factory_max trading,
+  InvO (match num_tokens with
+        | Some n => Some n
+        | None => if ov_flex vr then None else Some factory_max
+        end)
+       (o_init vr admin payment num_tokens pal wl start end_ price dn factory_max trading).
+Proof. exact o_init_inv. Qed.
+
+(* every successful call of any kind preserves it (the cap never moves, whatever the
+   factory parameters become later) *)
+Theorem C01_oe_step_preserves : forall cap vr s e fp wv o s' ms,
+  InvO cap s -> ostep vr s e fp wv o = Ok (s', ms) -> InvO cap s'.
+Proof. exact ostep_inv. Qed.
+
+(* hence it holds after every history of calls (failed calls change nothing) *)
+Theorem C01_oe_every_reachable_state : forall cap vr cs s, InvO cap s -> InvO cap (orun vr s cs).
+Proof. exact orun_inv. Qed.
+
+Theorem C01_oe_mint_calls : forall o,
+  is_mint_op o = true <-> match o with EMint _ _ _ | EMintTo _ _ => True | _ => False end.
+Proof. exact is_mint_op_spec. Qed.
+
+(* a successful Mint / MintTo hands out exactly one token, its id is the next integer, the
+   total count and the index go up by one, the stored remaining count goes down by one *)
+Theorem C01_oe_successful_mint : forall vr s e fp wv o s' ms,
+  is_mint_op o = true -> ostep vr s e fp wv o = Ok (s', ms) ->
+  o_mintable s <> Some 0 /\
+  (exists owner, nft_msgs ms = [(o_token_index s + 1, owner)]) /\
+  o_token_index s' = o_token_index s + 1 /\
+  o_total s' = o_total s + 1 /\
+  o_minted s' = (o_token_index s + 1) :: o_minted s /\
+  o_burned s' = o_burned s /\
+  o_mintable s' = match o_mintable s with Some k => Some (k - 1) | None => None end.
+Proof. exact ostep_mint. Qed.
+
+(* every other successful call hands out nothing and leaves index, total count and minted
+   ids alone; only burn-remaining touches the remaining count (it zeroes it) *)
+Theorem C01_oe_other_calls_mint_nothing : forall vr s e fp wv o s' ms,
+  is_mint_op o = false -> ostep vr s e fp wv o = Ok (s', ms) ->
+  nft_msgs ms = [] /\
+  o_token_index s' = o_token_index s /\ o_total s' = o_total s /\ o_minted s' = o_minted s /\
+  ((o_mintable s' = o_mintable s /\ o_burned s' = o_burned s) \/
+   (o = EBurnRemaining /\ exists m, o_mintable s = Some m /\ m <> 0 /\
+                                    o_mintable s' = Some 0 /\ o_burned s' = o_burned s + m)).
+Proof. exact ostep_other. Qed.
+
+(* whatever token a call hands to the collection carries the next id *)
+Theorem C01_oe_mint_emits_next_id : forall vr s e fp wv o s' ms t owner,
+  ostep vr s e fp wv o = Ok (s', ms) -> In (t, owner) (nft_msgs ms) ->
+  is_mint_op o = true /\ t = o_token_index s + 1 /\ nft_msgs ms = [(t, owner)] /\
+  o_token_index s' = t /\ o_total s' = o_total s + 1.
+Proof. exact o_mint_emits_next_id. Qed.
+
+(* histories: the ids handed out by any history from a fresh minter are 1, 2, 3, ..., k in
+   this order, where k is the number of Mint / MintTo calls that succeeded *)
+Theorem C01_oe_ids_are_1_2_3 : forall vr cs s,
+  o_token_index s = 0 ->
+  map fst (otrace vr s cs) = map N.of_nat (seq 1 (osuccesses vr s cs)).
+Proof. exact o_ids_are_1_2_3. Qed.
+
+Theorem C01_oe_one_token_per_successful_mint : forall vr cs s,
+  length (otrace vr s cs) = osuccesses vr s cs.
+Proof. exact otrace_length. Qed.
+
+(* the total-mint count equals the number of mints that succeeded *)
+Theorem C01_oe_total_count_is_successes : forall cap vr cs s,
+  InvO cap s -> o_token_index s = 0 ->
+  o_total (orun vr s cs) = N.of_nat (osuccesses vr s cs).
+Proof. exact o_total_is_successes. Qed.
+
+(* the supply never exceeds the cap, and the reported remaining count is exact *)
+Theorem C01_oe_supply_within_cap : forall c vr cs s,
+  InvO (Some c) s -> o_token_index s = 0 ->
+  N.of_nat (osuccesses vr s cs) <= c /\
+  exists m, o_mintable (orun vr s cs) = Some m /\
+            m + N.of_nat (osuccesses vr s cs) + o_burned (orun vr s cs) = c.
+Proof. exact o_supply_within_cap. Qed.
+
+(* burn-remaining succeeds only on a stored, non-zero count and zeroes it *)
+Theorem C01_oe_burn_remaining : forall vr s e fp wv s' ms,
+  ostep vr s e fp wv EBurnRemaining = Ok (s', ms) ->
+  (exists m, o_mintable s = Some m /\ m <> 0 /\ o_burned s' = o_burned s + m) /\
+  o_mintable s' = Some 0 /\ nft_msgs ms = [] /\
+  o_token_index s' = o_token_index s /\ o_total s' = o_total s /\ o_minted s' = o_minted s.
+Proof. exact o_burn_remaining_spec. Qed.
+
+(* no mint of any kind succeeds at zero; zero is final; so after a successful
+   burn-remaining no history mints anything *)
+Theorem C01_oe_mint_at_zero_fails : forall vr s e fp wv o,
+  o_mintable s = Some 0 -> is_mint_op o = true -> ostep vr s e fp wv o = Err.
+Proof. exact o_mint_at_zero_fails. Qed.
+
+Theorem C01_oe_zero_is_forever : forall vr cs s,
+  o_mintable s = Some 0 ->
+  o_mintable (orun vr s cs) = Some 0 /\ otrace vr s cs = [] /\ osuccesses vr s cs = 0%nat.
+Proof. exact o_zero_is_forever. Qed.
+
+Theorem C01_oe_nothing_after_burn : forall vr s e fp wv s' ms cs,
+  ostep vr s e fp wv EBurnRemaining = Ok (s', ms) ->
+  otrace vr s' cs = [] /\ osuccesses vr s' cs = 0%nat /\ o_mintable (orun vr s' cs) = Some 0.
+Proof. exact o_nothing_after_burn. Qed.
+
+(* where no count is stored (wl-flex created without num_tokens) burn-remaining always fails *)
+Theorem C01_oe_burn_without_count_fails : forall vr s e fp wv,
+  o_mintable s = None -> ostep vr s e fp wv EBurnRemaining = Err.
+Proof. exact o_burn_without_count_fails. Qed.
+
+(* ---- base minter: no cap, no total count, no burn; ids are 1, 2, 3, ... ---- *)
+Theorem C01_base_step : forall s e creator bps o s' ms,
+  bstep s e creator bps o = Ok (s', ms) ->
+  if is_bmint o
+  then nft_msgs ms = [(b_token_index s + 1, e_sender e)] /\ b_token_index s' = b_token_index s + 1 /\
+       b_minted s' = (b_token_index s + 1) :: b_minted s
+  else nft_msgs ms = [] /\ b_token_index s' = b_token_index s /\ b_minted s' = b_minted s.
+Proof. exact bstep_spec. Qed.
+
+Theorem C01_base_mint_emits_next_id : forall s e creator bps o s' ms t owner,
+  bstep s e creator bps o = Ok (s', ms) -> In (t, owner) (nft_msgs ms) ->
+  is_bmint o = true /\ t = b_token_index s + 1 /\ owner = e_sender e /\ nft_msgs ms = [(t, owner)] /\
+  b_token_index s' = t.
+Proof. exact b_mint_emits_next_id. Qed.
+
+Theorem C01_base_ids_are_1_2_3 : forall cs s,
+  b_token_index s = 0 -> map fst (btrace s cs) = map N.of_nat (seq 1 (bsuccesses s cs)).
+Proof. exact b_ids_are_1_2_3. Qed.
+
+Theorem C01_base_one_token_per_successful_mint : forall cs s,
+  length (btrace s cs) = bsuccesses s cs.
+Proof. exact btrace_length. Qed.
+
+Theorem C01_base_minted_ids : forall cs s,
+  b_minted s = rev (map N.of_nat (seq 1 (N.to_nat (b_token_index s)))) ->
+  b_minted (brun s cs) = rev (map N.of_nat (seq 1 (N.to_nat (b_token_index (brun s cs))))).
+Proof. exact brun_inv. Qed.
+
+(* ---- non-vacuity: the same history on the three variants, created without num_tokens
+   while the factory-wide limit is 2; evaluated in the model ---- *)
+Definition oe_fp : ofparams := mkOFP 50 0 1000 40 0 5000 10 2 604800 (Some 16).
+Definition oe_fp_raised : ofparams := mkOFP 50 0 1000 40 0 5000 10 100 604800 (Some 16).
+Definition oe_s0 (vr : ovariant) : ostate := o_init vr 10 None None 3 None 1000 (Some 5000) 100 0 2 None.
+Definition oe_calls : list ocall :=
+  [ mkOCall (mkEnv 999 11 [mkCoin 0 100] 20) oe_fp None (EMint None false None);        (* fails: before start *)
+    mkOCall (mkEnv 2000 11 [mkCoin 0 100] 20) oe_fp None (EMint None false None);
+    mkOCall (mkEnv 2001 10 [mkCoin 0 40] 20) oe_fp_raised None (EMintTo true 12);
+    mkOCall (mkEnv 2002 11 [mkCoin 0 100] 20) oe_fp_raised None (EMint None false None); (* over the captured cap *)
+    mkOCall (mkEnv 5000 10 [] 20) oe_fp None EBurnRemaining;                              (* fails: not after the end *)
+    mkOCall (mkEnv 5000 10 [mkCoin 0 40] 20) oe_fp None (EMintTo true 12);                (* fails: at the end time *)
+    mkOCall (mkEnv 5001 10 [] 20) oe_fp None EBurnRemaining;
+    mkOCall (mkEnv 5002 10 [mkCoin 0 40] 20) oe_fp None (EMintTo true 12) ].
+
+Example C01_oe_ex_initial_state_meets_invariant :
+  InvO (Some 2) (oe_s0 (mkOV false false)) /\ InvO None (oe_s0 (mkOV true false)) /\
+  InvO (Some 2) (oe_s0 (mkOV false true)).
+Proof.
+  split; [ exact (o_init_inv (mkOV false false) 10 None None 3 None 1000 (Some 5000) 100 0 2 None) | ].
+  split; [ exact (o_init_inv (mkOV true false) 10 None None 3 None 1000 (Some 5000) 100 0 2 None) | ].
+  exact (o_init_inv (mkOV false true) 10 None None 3 None 1000 (Some 5000) 100 0 2 None).
+Qed.
+
+Example C01_oe_ex_plain_history_evaluates :
+  let s := orun (mkOV false false) (oe_s0 (mkOV false false)) oe_calls in
+  (otrace (mkOV false false) (oe_s0 (mkOV false false)) oe_calls,
+   osuccesses (mkOV false false) (oe_s0 (mkOV false false)) oe_calls,
+   o_total s, o_mintable s, o_minted s, o_burned s)
+  = ([(1, 11); (2, 12)], 2%nat, 2, Some 0, [2; 1], 0).
+Proof. vm_compute. reflexivity. Qed.
+
+Example C01_oe_ex_flex_history_evaluates :
+  let s := orun (mkOV true false) (oe_s0 (mkOV true false)) oe_calls in
+  (otrace (mkOV true false) (oe_s0 (mkOV true false)) oe_calls, o_total s, o_mintable s, o_minted s)
+  = ([(1, 11); (2, 12); (3, 11)], 3, None, [3; 2; 1]).
+Proof. vm_compute. reflexivity. Qed.
+
+Definition oe_s1 : ostate := o_init (mkOV false true) 10 None (Some 3) 3 None 1000 None 100 0 2 None.
+Example C01_oe_ex_burn_with_tokens_left :
+  let cs := [ mkOCall (mkEnv 2000 11 [mkCoin 0 100] 20) oe_fp None (EMint None false None);
+              mkOCall (mkEnv 2001 10 [] 20) oe_fp None EBurnRemaining;
+              mkOCall (mkEnv 2002 11 [mkCoin 0 100] 20) oe_fp None (EMint None false None);
+              mkOCall (mkEnv 2003 10 [mkCoin 0 40] 20) oe_fp None (EMintTo true 12) ] in
+  let s := orun (mkOV false true) oe_s1 cs in
+  (otrace (mkOV false true) oe_s1 cs, o_total s, o_mintable s, o_burned s) = ([(1, 11)], 1, Some 0, 2).
+Proof. vm_compute. reflexivity. Qed.
+
+Example C01_base_ex_history_evaluates :
+  let s0 := mkBS 1000 0 [] None in
+  let cs := [ mkBCall (mkEnv 100 10 [mkCoin 0 500] 20) (Some 10) 5000 (BMint true);
+              mkBCall (mkEnv 101 11 [mkCoin 0 500] 20) (Some 10) 5000 (BMint true);    (* fails: not the creator *)
+              mkBCall (mkEnv 102 10 [mkCoin 0 499] 20) (Some 10) 5000 (BMint true);    (* fails: wrong amount *)
+              mkBCall (mkEnv 103 10 [] 20) (Some 10) 5000 (BUpdateStartTradingTime (Some 200));
+              mkBCall (mkEnv 104 10 [mkCoin 0 500] 20) (Some 10) 5000 (BMint true) ] in
+  (btrace s0 cs, bsuccesses s0 cs, b_token_index (brun s0 cs), b_minted (brun s0 cs))
+  = ([(1, 10); (2, 10)], 2%nat, 2, [2; 1]).
+Proof. vm_compute. reflexivity. Qed.
+
+Print Assumptions C01_oe_invariant_spelled_out.
+Print Assumptions C01_oe_holds_at_creation.
+Print Assumptions C01_oe_step_preserves.
+Print Assumptions C01_oe_every_reachable_state.
+Print Assumptions C01_oe_mint_calls.
+Print Assumptions C01_oe_successful_mint.
+Print Assumptions C01_oe_other_calls_mint_nothing.
+Print Assumptions C01_oe_mint_emits_next_id.
+Print Assumptions C01_oe_ids_are_1_2_3.
+Print Assumptions C01_oe_one_token_per_successful_mint.
+Print Assumptions C01_oe_total_count_is_successes.
+Print Assumptions C01_oe_supply_within_cap.
+Print Assumptions C01_oe_burn_remaining.
+Print Assumptions C01_oe_mint_at_zero_fails.
+Print Assumptions C01_oe_zero_is_forever.
+Print Assumptions C01_oe_nothing_after_burn.
+Print Assumptions C01_oe_burn_without_count_fails.
+Print Assumptions C01_base_step.
+Print Assumptions C01_base_mint_emits_next_id.
+Print Assumptions C01_base_ids_are_1_2_3.
+Print Assumptions C01_base_one_token_per_successful_mint.
+Print Assumptions C01_base_minted_ids.
